@@ -104,6 +104,9 @@ func shrinkCandidates(sc *Scenario) []*Scenario {
 	}
 	// documents
 	for i := range sc.Files {
+		if sc.MetaBool("freeze_data") {
+			break
+		}
 		for j := range sc.Files[i].Docs {
 			i, j := i, j
 			if len(sc.Files[i].Docs) <= 1 {
@@ -186,6 +189,9 @@ func shrinkCandidates(sc *Scenario) []*Scenario {
 	}
 	// docs of a file: shrink a document to its first line (id) only
 	for i := range sc.Files {
+		if sc.MetaBool("freeze_data") {
+			break
+		}
 		for j, d := range sc.Files[i].Docs {
 			i, j := i, j
 			lines := strings.SplitAfter(d, "\n")
